@@ -465,14 +465,27 @@ class Exec(object):
         ms = rd.split_members(data, name.endswith('.gz'))
         out = []
         for m in ms:
-            ty, rid = '', ''
+            ty, rid, http = '', '', False
             if m['st'] == 'complete' and m['nrec'] == 1:
                 f = rd.parse_record(m['raw'])
                 ty, rid = f['type'], f['rid']
+                http = bool(f.get('http')) and ty == 'response'
             raw_slice = data[m['off']:m['off'] + m['len']]
             out.append({'s': m['st'], 'l': m['len'], 'c': self._intern(self.cids, hashlib.sha1(raw_slice).digest()),
-                        't': ty or 'none', 'r': self._intern(self.rids, rid)})
+                        't': ty or 'none', 'r': self._intern(self.rids, rid), 'h': http})
         return out
+
+    def cdx_rids(self):
+        """The record ids named by the complete lines of the CDX index as it is on disk now (what a process killed
+        here leaves behind), in file order; None if there is no index file."""
+        for name, (data, _jb) in sorted(self.scan().items()):
+            if role_of(name) != 'c':
+                continue
+            if not data.endswith(b'\n'):
+                data = data[:data.rfind(b'\n') + 1]         # (an unfinished last line is no line)
+            _hdr, lines = rd.read_cdx(data)
+            return [self._intern(self.rids, ln.get('rid', '')) if ln.get('wellformed') else 0 for ln in lines]
+        return None
 
     def delta(self):
         """Changed files since the last snapshot, in the encoding of the trace events."""
@@ -546,8 +559,10 @@ class Exec(object):
                 if ex.muted and ex.append_no == ex.log_from_append:
                     ex.muted = False
                 fi = file_id(self._warc_filename)
+                cr = ex.cdx_rids() if not (ex.quiet_ops or ex.muted) else None
                 ex.mark('abegin', ty=str(record.fields.get('WARC-Type', '')), fi=fi, a=ex.append_no, len=0,
-                        cx=bool(getattr(self, '_cdx_filename', None)))    # is the CDX index set up already?
+                        cx=bool(getattr(self, '_cdx_filename', None)),    # is the CDX index set up already?
+                        cq=cr is not None, cr=cr or [])     # the index on disk: record ids of its complete lines
                 ab = len(ex.ev) - 1
                 size0 = len((ex.last.get(fi) or (b'', None))[0])
                 ex.maxseen[fi] = size0
